@@ -55,6 +55,10 @@ impl ScalarCow {
     pub fn to_integer(&self) -> (r: Option<i64>) ensures r == self.int_view() { unimplemented!() }
     #[verifier::external_body]
     pub fn to_float(&self) -> (r: Option<f64>) ensures r == self.flt_view() { unimplemented!() }
+    /// the text of the scalar
+    pub uninterp spec fn text(&self) -> KStringCow;
+    #[verifier::external_body]
+    pub fn to_kstr(&self) -> (r: KStringCow) ensures r == self.text() { unimplemented!() }
 }
 
 #[verifier::external_body]
@@ -118,6 +122,14 @@ pub trait ValueView {
     fn as_array(&self) -> (r: Option<&dyn ArrayView>)
         ensures self.array_of() is Some <==> r is Some,
                 r matches Some(a) ==> self.array_of() == Some(a.elems());
+    spec fn object_size_of(&self) -> Option<int>;
+    fn as_object(&self) -> (r: Option<&dyn ObjectView>)
+        ensures self.object_size_of() is Some <==> r is Some,
+                r matches Some(o) ==> self.object_size_of() == Some(o.entries());
+}
+pub trait ObjectView {
+    spec fn entries(&self) -> int;
+    fn size(&self) -> (r: i64) ensures r == self.entries();
 }
 pub trait ArrayView {
     spec fn elems(&self) -> Seq<VId>;
@@ -131,6 +143,9 @@ impl ValueView for Value {
     uninterp spec fn kstr_of(&self) -> KStringCow;
     open spec fn array_of(&self) -> Option<Seq<VId>> { self.arr() }
     uninterp spec fn nil_of(&self) -> bool;
+    uninterp spec fn object_size_of(&self) -> Option<int>;
+    #[verifier::external_body]
+    fn as_object(&self) -> (r: Option<&dyn ObjectView>) { unimplemented!() }
     #[verifier::external_body]
     fn is_nil(&self) -> (r: bool) { unimplemented!() }
     #[verifier::external_body]
